@@ -23,6 +23,7 @@ package util
 // checked against LevelDB's mask itself - rotate right by 15 bits and add 0xa282ead8 - so that a slip in the rotation
 // or the constant, which would let damaged bytes pass the checksum comparison, is not hidden behind the assumption.)
 //@ func (CRC).Value
+//@   props C01 C02 C03 C04 C06 C07 C08 C09 C10 C11 C12 C13 C14 C15 C16 C17 C18 C19 C20
 //@   pure
 //@   mode bv
 //@   assumes result == crcmask(c)
